@@ -324,8 +324,17 @@ func isErrorConstructor(call *ssa.Call) bool {
 		return true
 	case modPath + "/internal/utils.WrapError":
 		// returns nil only for a nil cause
+		// (the cause must be an error known to be non-nil where the wrapper is called: the value whose non-nil edge leads
+		// here, or another constructor - wrapping a different, nil, variable yields nil and the failure is lost)
 		if len(call.Call.Args) == 2 {
-			return !mayBeNilShallow(call.Call.Args[1])
+			cause := call.Call.Args[1]
+			if mayBeNilShallow(cause) {
+				return false
+			}
+			if inner, ok := cause.(*ssa.Call); ok && isErrorConstructor(inner) {
+				return true
+			}
+			return knownNonNilAt(cause, call.Block())
 		}
 	}
 	return false
@@ -407,4 +416,48 @@ func retOperand(ret *ssa.Return, i int) ssa.Value {
 		}
 	}
 	return v
+}
+
+// knownNonNilAt: block b is dominated by the non-nil edge of a test `v != nil` / `v == nil` (v itself, or the phi / spilled
+// variable it is read from).
+func knownNonNilAt(v ssa.Value, b *ssa.BasicBlock) bool {
+	fn := b.Parent()
+	same := func(x ssa.Value) bool {
+		if x == v {
+			return true
+		}
+		// loads of the same spilled variable
+		lx, ok1 := isLoad(x)
+		lv, ok2 := isLoad(v)
+		return ok1 && ok2 && lx.X == lv.X
+	}
+	for _, blk := range fn.Blocks {
+		ifi, ok := blk.Instrs[len(blk.Instrs)-1].(*ssa.If)
+		if !ok || blk.Succs[0] == blk.Succs[1] {
+			continue
+		}
+		bo, ok := ifi.Cond.(*ssa.BinOp)
+		if !ok || (bo.Op != token.NEQ && bo.Op != token.EQL) {
+			continue
+		}
+		var tested ssa.Value
+		if isNilConst(bo.Y) {
+			tested = bo.X
+		} else if isNilConst(bo.X) {
+			tested = bo.Y
+		} else {
+			continue
+		}
+		if !same(tested) {
+			continue
+		}
+		nonNil := blk.Succs[0]
+		if bo.Op == token.EQL {
+			nonNil = blk.Succs[1]
+		}
+		if edgeDominates(blk, nonNil, b) {
+			return true
+		}
+	}
+	return false
 }
